@@ -139,6 +139,56 @@ fn cpc_extreme(lgk: u8, n: u64, seed: u64) {
     cpc_queries(&u.to_sketch());
 }
 
+/// Every configuration in the documented range, small and medium fill: estimators and bounds index tables by
+/// lg_k (HIP / ICON error constants, coupon interpolation, harmonic numbers), so each lg_k is its own case.
+fn every_lgk(seed: u64) {
+    let mut rng = Rng::new(seed ^ 0xE1);
+    for lgk in 4u8..=21 {
+        // CPC: streamed (HIP) and merged (ICON), sparse and dense for the smaller ones
+        for n in [3u64, 40, (1u64 << lgk.min(13)) * 3] {
+            let mut sk = CpcSketch::new(lgk);
+            for _ in 0..n {
+                sk.update(rng.next());
+            }
+            cpc_queries(&sk);
+            let mut u = CpcUnion::new(lgk);
+            u.update(&sk);
+            let r = u.to_sketch();
+            cpc_queries(&r);
+            let w = datasketches::cpc::CpcWrapper::new(&r.serialize()).expect("own image");
+            for s in [NumStdDev::One, NumStdDev::Two, NumStdDev::Three] {
+                assert!(w.lower_bound(s) <= w.estimate() && w.estimate() <= w.upper_bound(s));
+            }
+            let back = CpcSketch::deserialize(&r.serialize()).expect("own image");
+            cpc_queries(&back);
+        }
+        // HLL: every type in list, set and register mode, and union results
+        for t in [4u8, 6, 8] {
+            for n in [3u64, 30, (1u64 << lgk.min(13)) * 2] {
+                let mut sk = HllSketch::new(lgk, ty(t));
+                for _ in 0..n {
+                    sk.update(rng.next());
+                }
+                hll_all_queries(&sk);
+                let mut u = HllUnion::new(lgk);
+                u.update(&sk);
+                hll_all_queries(&u.to_sketch(ty(t)));
+            }
+        }
+    }
+    for lgk in 5u8..=26 {
+        let mut sk = ThetaSketch::builder().lg_k(lgk).build();
+        for _ in 0..(if lgk <= 12 { 3u64 << lgk } else { 5000 }) {
+            sk.update(rng.next());
+        }
+        for s in [NumStdDev::One, NumStdDev::Two, NumStdDev::Three] {
+            assert!(sk.lower_bound(s) <= sk.estimate() && sk.estimate() <= sk.upper_bound(s));
+        }
+        let c = sk.compact(true);
+        let _ = (c.serialize(), c.serialize_compressed(), c.estimate());
+    }
+}
+
 fn cpc_walk_small(lgk: u8, seed: u64) {
     // crafted coupons up to window offset 56 with a serialization at every offset
     let mut rng = Rng::new(seed);
@@ -344,6 +394,7 @@ pub fn record(args: &Args) {
         bulk(&mut out, &format!("hll lg_k=4 type={t}"), move || hll_extreme(4, t, 5000, seed));
         bulk(&mut out, &format!("hll lg_k=21 type={t}"), move || hll_extreme(21, t, if thorough { 8_000_000 } else { 1_000_000 }, seed + 1));
     }
+    bulk(&mut out, "every lg_k", move || every_lgk(seed));
     bulk(&mut out, "cpc lg_k=4 walk", move || cpc_walk_small(4, seed));
     bulk(&mut out, "cpc lg_k=5 walk", move || cpc_walk_small(5, seed + 9));
     bulk(&mut out, "cpc lg_k=4", move || cpc_extreme(4, 20_000, seed));
@@ -515,6 +566,50 @@ pub fn record_sizes(args: &Args) {
                 }
             }
             evs.into_iter().for_each(|e| out.ev(e));
+        }
+    }
+    // HLL union results are no finer than lg_max_k, whatever the inputs and the gadget's mode when they arrive,
+    // and have the exact size their own mode and lg_k dictate
+    for &maxk in &[8u8, 10] {
+        for plan in 0..5u8 {
+            out.next_run("size-hll-union");
+            let mut u = HllUnion::new(maxk);
+            // (lg_k, type, items) of the inputs; 0 items = a single update_value on the union itself
+            let inputs: Vec<(u8, u8, u64)> = match plan {
+                0 => vec![(maxk, 8, 3), (maxk + 4, 8, 1 << (maxk + 5))],          // list gadget, then a finer dense input
+                1 => vec![(maxk, 4, 20), (maxk + 2, 6, 1 << (maxk + 4))],         // set gadget, then a finer dense input
+                2 => vec![(maxk + 3, 8, 1 << (maxk + 5)), (maxk, 8, 50)],         // finer dense input first
+                3 => vec![(0, 8, 0), (0, 8, 0), (maxk + 1, 4, 1 << (maxk + 3)), (maxk - 2, 8, 1 << maxk)],
+                _ => (0..5).map(|_| (maxk - 2 + rng.below(6) as u8, [4u8, 6, 8][rng.below(3) as usize], 1 + rng.below(1 << (maxk + 2)))).collect(),
+            };
+            for (lgk, t, n) in inputs {
+                let r = catch(std::panic::AssertUnwindSafe(|| {
+                    if n == 0 {
+                        u.update_value(rng.next());
+                    } else {
+                        let mut s = HllSketch::new(lgk, ty(t));
+                        for _ in 0..n {
+                            s.update(rng.next());
+                        }
+                        u.update(&s);
+                    }
+                    [4u8, 6, 8].iter().map(|&tt| {
+                        let res = u.to_sketch(ty(tt));
+                        let st = res.verif_state();
+                        let mode = ["list", "set", "arr"][st.mode as usize];
+                        let count = if st.mode == 0 { st.coupons.iter().filter(|&&c| c != 0).count() } else { st.count };
+                        json!({"op":"Size","fam":"hll","lgk":res.lg_config_k(),"type":tt,"mode":mode,"count":count,"naux":st.aux.len(),
+                            "len":res.serialize().len(),"n":n,"maxk":maxk})
+                    }).collect::<Vec<_>>()
+                }));
+                match r {
+                    Ok(evs) => evs.into_iter().for_each(|e| out.ev(e)),
+                    Err(e) => {
+                        out.ev(json!({"op":"Panic","in":"hll union","key":e.split(": ").next().unwrap_or(""),"msg":e}));
+                        break;
+                    }
+                }
+            }
         }
     }
     // CPC union results are sketches of the union's configuration: lg_k no larger than configured, image
